@@ -13,7 +13,7 @@ Local Open Scope string_scope.
     Object identities (Python [is]) are small integers handed out by the harness from [id(obj)]:
     [s_uid] is the identity of the triplet tuple object itself (the same tuple object sits in
     list_of_points and in list_of_stationary_points), [s_xid]/[s_gid] those of the Point objects x
-    and g.  [s_gblocks] = [partition.get_block(g, k) for k in range(d)] (BlockSmooth only; the block
+    and g (recorded, no generator looks at them any more).  [s_gblocks] = [partition.get_block(g, k) for k in range(d)] (BlockSmooth only; the block
     partition itself is modelled elsewhere, the blocks are input data here). *)
 Record sample := mkSample {
   s_x : pdict; s_g : pdict; s_f : edict;
@@ -35,9 +35,8 @@ Inductive plan_item :=
 | Guarded (g : guard) (item : plan_item)
 | AutoStationary             (* if self.list_of_stationary_points == list(): self.stationary_point() *)
 | LMI (l : lst) (entry : xterm)
-| CrossEq (f : cterm)        (* LinearOperator: for xy in points: for uv in T.points: append (f) unnamed *)
 | BlockPairs (cprefix : string) (f : cterm).
-                             (* BlockSmoothConvexFunction: for i: for j: if point_i == point_j: 0 else for k: f *)
+                             (* BlockSmoothConvexFunction: for i: for j: if point_i is point_j: 0 else for k: f *)
 
 (** variable numbering used by every generated formula (see translator/pep2coq.py) *)
 Definition V_xi := 0%nat. Definition V_gi := 1%nat. Definition V_xj := 2%nat. Definition V_gj := 3%nat.
@@ -66,7 +65,8 @@ Definition nat_to_string (n : nat) : string := NilEmpty.string_of_uint (Nat.to_u
 Definition point_id (s : sample) (i : nat) : string :=
   match s_name s with Some n => n | None => "Point_" ++ nat_to_string i end.
 
-(** a generated class constraint: its name (None for LinearOperator's unnamed equalities) and object *)
+(** a generated class constraint: its name (every generator names its constraints; [None] is kept for
+    unnamed objects, none is generated any more) and object *)
 Record citem := mkC { c_name : option string; c_obj : edict * sense }.
 
 Definition get_list (st : fstate) (l : lst) : list sample :=
@@ -193,14 +193,11 @@ Definition append_out (o : genout) (cs : list citem) (ls : list (list (list edic
   mkG (g_cons o ++ cs) (g_lmis o ++ ls) (g_tables o ++ ts) st.
 
 (** ---- BlockSmoothConvexFunction.add_class_constraints (functions/block_smooth_convex_function.py).
-    The skip test is [point_i == point_j] on the two triplet *tuples*.  CPython compares tuples item
-    by item with PyObject_RichCompareBool: identical objects are equal; otherwise [==] is called and
-    its result's truth value is taken.  Point does not overload [==] (identity); Expression does:
-    [fi == fj] builds a Constraint object, which is truthy.  Hence two triplets are "equal" iff they
-    are the same tuple object or hold the same Point objects x and g -- whatever their f (a side
-    effect, one throw-away Constraint, and Constraint.counter += 1, is not modelled). *)
-Definition same_tuple (si sj : sample) : bool :=
-  Nat.eqb (s_uid si) (s_uid sj) || (Nat.eqb (s_xid si) (s_xid sj) && Nat.eqb (s_gid si) (s_gid sj)).
+    The skip test is [point_i is point_j]: the identity of the two triplet objects, as in the generic
+    generators.  (Before /repo b61687d it was the tuple equality [point_i == point_j], under which two
+    triplets holding the same Point objects x and g compared equal whatever their f; the translator now
+    refuses that comparison.) *)
+Definition same_tuple (si sj : sample) : bool := Nat.eqb (s_uid si) (s_uid sj).
 
 Definition block_name (st : fstate) (cprefix : string) (k : nat) (si sj : sample) (i j : nat) : string :=
   "IC_" ++ f_id st ++ "_" ++ cprefix ++ nat_to_string k ++ "(" ++ point_id si i ++ ", " ++ point_id sj j ++ ")".
@@ -254,9 +251,6 @@ Fixpoint run_item (it : plan_item) (o : genout) {struct it} : genout :=
   | LMI l entry =>
       let pts := get_list st l in
       append_out o [] [map (fun si => map (fun sj => instX st entry si sj) pts) pts] [] st
-  | CrossEq f =>
-      let cs := flat_map (fun si => map (fun sj => mkC None (inst st f si sj)) (f_tpoints st)) (f_points st) in
-      append_out o cs [] [] st
   | BlockPairs cprefix f =>
       let l := f_points st in
       let ts := match l with
